@@ -390,6 +390,22 @@ func splitPeriod(mpd *m.MPD, a *asset, cfg *ResponseConfig, wTimes wrapTimes) er
 		return fmt.Errorf("period duration %ds not a multiple of segment duration %dms", periodDur, a.SegmentDurMS)
 	}
 
+	if ref := a.refRep; ref != nil && len(ref.Segments) > 0 {
+		// SegmentDurMS is the smallest average over all representations (e.g. audio). The periods must
+		// be cut at boundaries of the reference (video) segments, which may be slightly longer (2.002s).
+		refSegDur := ref.Segments[0].dur()
+		constantDur := refSegDur > 0
+		for _, seg := range ref.Segments {
+			if seg.dur() != refSegDur {
+				constantDur = false
+				break
+			}
+		}
+		if constantDur && uint64(periodDur*ref.MediaTimescale)%refSegDur != 0 {
+			return fmt.Errorf("period duration %ds not a multiple of segment duration %d/%ds", periodDur, refSegDur, ref.MediaTimescale)
+		}
+	}
+
 	startPeriodNr := wTimes.startTimeMS / (periodDur * 1000)
 	endPeriodNr := wTimes.nowMS / (periodDur * 1000)
 	inPeriod := mpd.Periods[0]
